@@ -1131,6 +1131,31 @@ impl Checker {
         step: u64,
         out: &mut Vec<Finding>,
     ) {
+        // C13: the server never hangs up on a client that waits for its job
+        let mut hung_up: Vec<u32> = Vec::new();
+        for (c, (job, got)) in &self.waiting_clients {
+            if let Some(cl) = world.clients.get(c)
+                && cl.closed
+                && !cl.closed_by_client
+                && !*got
+            {
+                fnd(
+                    out,
+                    "C13",
+                    "wait-missed-completion",
+                    "connection-closed-by-server",
+                    format!(
+                        "client {c} submitted job {job} with wait; the server closed its connection before it had received the completion report (job completed so far: {})",
+                        self.completed_jobs.contains(job)
+                    ),
+                    step,
+                );
+                hung_up.push(*c);
+            }
+        }
+        for c in hung_up {
+            self.waiting_clients.remove(&c);
+        }
         // C08: the step in which the server handles a cancel request
         if let Action::ClientSend {
             c,
@@ -1645,9 +1670,35 @@ impl Checker {
             if let Some(sim) = &ws.sim {
                 let snap = sim.snapshot();
                 let spec = &world.cfg.workers[ws.spec_index as usize];
+                let n0 = out.len();
                 crate::oracles_worker::check_worker_resources(
                     ws.id, spec, &snap, &core.resource_names, step, out,
                 );
+                // C08: "the resources reserved for it are released" also holds on the worker:
+                // a loss of conservation in the step in which a canceled execution ended
+                let conservation_lost = out[n0..]
+                    .iter()
+                    .any(|f| f.property == "C04" && f.oracle.starts_with("not-conserved"));
+                if conservation_lost {
+                    let canceled_now = world.launches.borrow().iter().find_map(|l| {
+                        (l.worker == ws.id
+                            && matches!(l.ended, Some((s, ExecEnd::Canceled)) if s == step))
+                        .then_some(l.task)
+                    });
+                    if let Some(k) = canceled_now {
+                        fnd(
+                            out,
+                            "C08",
+                            "resources-not-released-after-cancel",
+                            "worker",
+                            format!(
+                                "worker {}: the execution of the canceled task {k:?} ended in this step and the worker's allocator still holds resources that no running task owns",
+                                ws.id
+                            ),
+                            step,
+                        );
+                    }
+                }
             }
         }
         self.prev_core = Some(core);
@@ -2871,14 +2922,29 @@ impl Checker {
         // C13: waiting clients got the completion report
         for (c, (job, got)) in &self.waiting_clients {
             let completed = self.completed_jobs.contains(job);
-            let still_connected = world.clients.get(c).is_some_and(|cl| !cl.closed);
-            if completed && !got && still_connected {
+            let Some(cl) = world.clients.get(c) else {
+                continue;
+            };
+            // a client that hung up itself is not owed anything
+            if cl.closed_by_client || *got {
+                continue;
+            }
+            if completed {
                 fnd(
                     &mut out,
                     "C13",
                     "wait-missed-completion",
-                    "",
+                    if cl.closed { "connection-closed-by-server" } else { "" },
                     format!("client {c} submitted job {job} with wait; the job completed but the client never received the completion report"),
+                    step,
+                );
+            } else if cl.closed {
+                fnd(
+                    &mut out,
+                    "C13",
+                    "wait-missed-completion",
+                    "connection-closed-by-server-before-completion",
+                    format!("client {c} submitted job {job} with wait; the server closed the connection although the job has not completed"),
                     step,
                 );
             }
